@@ -129,6 +129,22 @@ def binding(ctx):
     r = tlc.run_tlc("Dist", dict(Dim=3, Entries=E("{0,1,4,9}"), EMIT=True, Triples=False), invariants=["EmitInv"], workers=1, timeout=1800)
     ctx.add_tlc(r, "Dist pairs for the mode comparison")
     modes(ctx, "distances", "dist", "run_dist", rng.sample(r.prints, 100 * n), nproc=3, min_chunk=30)
+    # information weights on every storage format of the same matrices (unsorted CSC indices, explicit zeros, duplicates)
+    from . import c17
+    r = tlc.run_tlc("InfoWeight", dict(MODE="encodings", Bases=c17.BASES, NR=3, NC=3, MaxLen=7, MaxSteps=2, DRows=1, DMax=1,
+                                       Strengths=E("{1}"), EMIT=True), invariants=["SameMatrix", "EmitInv"], workers=1, view="view", timeout=1800,
+                    heap="6g")
+    ctx.add_tlc(r, "InfoWeight encodings for the mode comparison")
+    by = {}
+    for p in r.prints:
+        by.setdefault(p["bi"], []).append(p["enc"])
+    iwi = []
+    for bi, encs in sorted(by.items()):
+        rng.shuffle(encs)
+        for k in range(0, min(len(encs), 12 * n), 4):
+            iwi.append(dict(bi=bi, encs=[c17.BASES[bi - 1]] + encs[k:k + 4], nr=3, nc=3, fmts=["coo", "csr", "csc", "csc_unsorted", "lil", "dense"],
+                            perm_r=rng.sample(range(3), 3), perm_c=rng.sample(range(3), 3)))
+    modes(ctx, "information_weight", "iw", "encodings", iwi, nproc=4, min_chunk=3)
     # sliding windows (every fit compiles a new kernel: few instances)
     sw = sw_cfg.instances("quick", ctx.seed)["replay"][: 12 * n]
     shard = tlc.run_tlc("SlidingWindow", dict(Insts=[sw_cfg.tla_inst(x) for x in sw], EMIT=True), invariants=["InRange", "EmitInv"], workers=1,
